@@ -23,15 +23,17 @@ const ModulePath = "github.com/tonistiigi/fsutil"
 
 // Prog is one loaded configuration (GOOS/GOARCH) of the repository.
 type Prog struct {
-	Dir    string
-	GOOS   string
-	GOARCH string
-	Fset   *token.FileSet
-	Pkgs   []*packages.Package // module packages only (roots of ./...)
-	SSA    *ssa.Program
-	Seams  map[string]string       // function-variable seams resolved to the function they always hold
-	SPkgs  map[string]*ssa.Package // by short name (fsutil, copy, types, util, cmd/send ...)
-	byName map[string]*ssa.Function
+	Dir      string
+	GOOS     string
+	GOARCH   string
+	Fset     *token.FileSet
+	Pkgs     []*packages.Package // module packages only (roots of ./...)
+	SSA      *ssa.Program
+	Seams    map[string]string // function-variable seams resolved to the function they always hold
+	Dead     []string          // unexported functions nothing can call: not analysed
+	deadDone bool
+	SPkgs    map[string]*ssa.Package // by short name (fsutil, copy, types, util, cmd/send ...)
+	byName   map[string]*ssa.Function
 	// ModFuncs is every function (incl. closures, methods, generic instances)
 	// whose package belongs to the module, sorted by name.
 	ModFuncs []*ssa.Function
@@ -285,6 +287,18 @@ func Closures(fn *ssa.Function) []*ssa.Function {
 			seen[a] = true
 			out = append(out, a)
 			rec(a)
+		}
+		// literals written in a helper no rule names belong to the function
+		// the helper was taken out of (`WriteTar` -> `writeTar(..., progress)`)
+		if deepProg != nil {
+			InstrsShallow(f, func(in ssa.Instruction) {
+				if c, ok := in.(*ssa.Call); ok {
+					if callee := EffCallee(c); callee != nil && !seen[callee] && deepProg.transparent[callee] && callee.Parent() == nil {
+						seen[callee] = true
+						rec(callee)
+					}
+				}
+			})
 		}
 	}
 	rec(fn)
